@@ -11,7 +11,7 @@ def worker(args):
     if not os.path.isdir(wt):
         subprocess.check_call(["git", "-C", REPO, "worktree", "add", "--detach", wt, "HEAD"], stdout=subprocess.DEVNULL, stderr=subprocess.DEVNULL)
     subprocess.check_call(["rsync", "-a", "--delete", "--exclude", ".git", "--exclude", "replays", "/verif/", vc + "/"])
-    env = dict(os.environ, PYTHONPATH=wt, XPLIQUE_REPO=wt, VERIF_SEED="0", TF_ENABLE_ONEDNN_OPTS="0", TF_CPP_MIN_LOG_LEVEL="3",
+    env = dict(os.environ, PYTHONPATH=wt, XPLIQUE_REPO=wt, VERIF_SEED=os.environ.get("VERIF_SEED", "0"), TF_ENABLE_ONEDNN_OPTS="0", TF_CPP_MIN_LOG_LEVEL="3",
                CUDA_VISIBLE_DEVICES="", XPLIQUE_VERIF="1", PYTHONDONTWRITEBYTECODE="1")
     for name in names:
         meta = json.load(open(f"/verif/seeded/{name}/meta.json"))
